@@ -254,7 +254,11 @@ def _expand_mutex_groups(G: nx.DiGraph, nodes: list[HyperNode]) -> list[list[set
         if len(targets) < 2:
             continue
 
-        exclusive_sets = _compute_exclusive_reachability(G, targets)
+        # What a branch reaches is followed up to the gate itself, not through it:
+        # in a cycle every branch leads back to the gate and, through its next
+        # decision, to every other branch - that is the next iteration, not this one.
+        beyond_gate = nx.restricted_view(G, [node.name], []) if node.name in G else G
+        exclusive_sets = _compute_exclusive_reachability(beyond_gate, targets)
         expanded_groups.append(list(exclusive_sets.values()))
 
     return expanded_groups
